@@ -43,7 +43,7 @@ DESCRIBE = {
                     "uniform was within 1e-4 relative of the acceptance ratio", "the corruption is applied after the loader ran: timing adds nothing (every cached quantity is computed later)",
                     "mixture model not covered"],
 }
-KINDS = ["logistic_scalar", "logistic_diag", "logistic_diag_nosrc", "logistic_binary", "linear_diag", "linear_scalar", "shared_speed", "joint_multi", "joint_nosrc"]
+KINDS = ["logistic_scalar", "logistic_diag", "logistic_diag_nosrc", "logistic_binary", "linear_diag", "linear_scalar", "shared_speed", "joint_multi", "joint_nosrc", "joint_ev2"]
 POISONS = ["finite", "huge", "nan", "inf", "-inf", "mixed"]
 
 
